@@ -667,6 +667,24 @@ func WrapStringPValue(hash hash.StringHash) *Hash {
 	return &Hash{entries: hvEntries}
 }
 
+// uniqueEntries returns a Hash of the given entries with one entry per key: an entry whose key is equal to the
+// key of an earlier entry replaces that entry in place, like Merge does. The given slice is reused.
+func uniqueEntries(entries []*HashEntry) *Hash {
+	index := make(map[px.HashKey]int, len(entries))
+	n := 0
+	for _, e := range entries {
+		k := px.ToKey(e.key)
+		if idx, ok := index[k]; ok {
+			entries[idx] = e
+		} else {
+			index[k] = n
+			entries[n] = e
+			n++
+		}
+	}
+	return &Hash{entries: entries[:n:n], index: index}
+}
+
 func WrapHashFromArray(a *Array) *Hash {
 	top := a.Len()
 	switch a.PType().(*ArrayType).ElementType().(type) {
@@ -680,7 +698,7 @@ func WrapHashFromArray(a *Array) *Hash {
 			}
 			entries[idx] = WrapHashEntry(pairArr.At(0), pairArr.At(1))
 		})
-		return WrapHash(entries)
+		return uniqueEntries(entries)
 	default:
 		if (top % 2) != 0 {
 			panic(illegalArguments(`Hash`, `odd number of arguments in Array`))
@@ -691,7 +709,7 @@ func WrapHashFromArray(a *Array) *Hash {
 			entries[idx] = WrapHashEntry(slice.At(0), slice.At(1))
 			idx++
 		})
-		return WrapHash(entries)
+		return uniqueEntries(entries)
 	}
 }
 
